@@ -423,7 +423,122 @@ def r7_loaders_skip_temp(ctx, cfg):
     ctx.floor(rule, n, 3, "file reads / probes in loaders of the state modules")
 
 
+READ_DIR = re.compile(r"^std::fs::read_dir$|^tokio::fs::read_dir::read_dir$")
+REMOVE_ANY = re.compile(r"^std::fs::remove_file$|^tokio::fs::remove_file::remove_file$")
+READ_WHOLE = re.compile(r"^std::fs::read$|^tokio::fs::read::read$|^std::fs::File::open$|^tokio::fs::file::File::open$")
+
+
+def r8_sweep_after_success(ctx, cfg):
+    """generation rotation keeps the old file until the new one is complete; the sweep of 'stale' generations (everything that is not the
+    current or the previous generation) is only safe once the manager knows which generation is current. A caller that runs the sweep after a
+    load or a checkpoint that FAILED deletes the only intact generation (the torn newest file stays, its checksum rejects it on the next start)."""
+    rule = "C06.R8"
+    ctx.rule(rule, "the stale-generation sweep (read_dir + remove_file) is unreachable from the error edge of a load / checkpoint of the same state "
+                   "in the same function")
+    from .lib import result_local
+    prog = ctx.prog
+    inmod = [b for b in prog.bodies.values() if b.krate in cfg["krates"] and re.search(cfg["state_modules"], b.file or "")]
+    sweepers = {b.id for b in inmod if any(READ_DIR.search(c.name) for c in b.calls) and any(REMOVE_ANY.search(c.name) for c in b.calls)}
+    ctx.floor(rule, len(sweepers), 1, "sweepers of stale state files (read_dir + remove_file)")
+    # fallible load / save steps of the state: local functions returning Result whose family reads or writes a file
+    def family_calls(b):
+        out = list(b.calls)
+        for k in prog.bodies.values():
+            if k.root == b.id or k.parent == b.id:
+                out += k.calls
+        return out
+    steps = {b.id for b in inmod if not b.root and re.search(r"result::Result<", b.local_ty(0) or "") is not None
+             or (not b.root and any(READ_WHOLE.search(c.name) or WRITE_WHOLE.search(c.name) for c in family_calls(b)))}
+    steps = {bid for bid in steps if any(READ_WHOLE.search(c.name) or WRITE_WHOLE.search(c.name) or CREATE.search(c.name) for c in family_calls(prog.bodies[bid]))}
+    n = 0
+    for b in prog.bodies.values():
+        if b.krate not in cfg["krates"]:
+            continue
+        sw = [c for c in b.calls if any(t in sweepers for t in prog.call_targets(c)) and c.bb in b.live_blocks()]
+        if not sw:
+            continue
+        st = [c for c in b.calls if any(t in steps for t in prog.call_targets(c)) and c.bb in b.live_blocks()]
+        for c in st:
+            rl, rbb = result_local(b, c)
+            sws = enum_switches_through(b, rl)
+            after = b.reachable([rbb])
+            tgt = [s_ for s_ in sw if s_.bb in after]
+            if not tgt:
+                continue
+            n += 1
+            ctx.saw(b)
+            errs = [m[1] for (ebb, m, other, via) in sws if 1 in m]
+            if not sws:
+                bad = True
+                why = "its result is not examined before the sweep"
+            else:
+                bad = any(b.reachable([e]) & {s_.bb for s_ in tgt} for e in errs)
+                why = "its error edge reaches the sweep"
+            ctx.check(not bad, rule, [b.id, "sweep-after", c.name.split("::")[-1]], "the sweep runs only after %s succeeded" % c.name.split("::")[-1],
+                      "%s calls %s and then sweeps stale generations, but %s: when the newest file is torn (crash during the last checkpoint) the manager "
+                      "still believes in its initial generation and the sweep deletes the intact previous generation - nothing valid is left on disk"
+                      % (ctx._stable(b.id), c.name.split("::")[-1], why), c.loc(), sample={"step": c.loc(), "sweeps": [s_.loc() for s_ in tgt]})
+    ctx.floor(rule, n, 2, "load / checkpoint steps followed by a stale-generation sweep")
+
+
+def r9_load_adopts_generation(ctx, cfg):
+    """write-new / delete-old only protects the old state if a restarted manager continues counting from the generation it loaded: the loader of
+    generation g (path helper fed from its parameter) must store g in the field the saver feeds to the same path helper"""
+    rule = "C06.R9"
+    ctx.rule(rule, "a loader that reads the file of the generation given as parameter stores that parameter in the generation field the saver names "
+                   "its file with, on every path to its Ok return")
+    from .lib import field_writes, assigns_variant
+    prog = ctx.prog
+    inmod = [b for b in prog.bodies.values() if b.krate in cfg["krates"] and re.search(cfg["state_modules"], b.file or "")]
+    # the path helpers: local functions `*_file_path(dir, generation)`; the saver's counter field = the field it passes there next to a whole-file write
+    counter = {}
+    loaders = []
+    for b in inmod:
+        for c in b.calls:
+            if not re.search(r"_file_path$", c.name) or len(c.args) < 2 or c.bb not in b.live_blocks():
+                continue
+            l = op_local(c.args[1])
+            if l is None:
+                continue
+            sl = Slice(b, [l], transparent=True)
+            flds = {f[-1] for f in sl.fields if f and not str(f[-1]).startswith("upvar:")}
+            ups = {f[-1] for f in sl.fields if f and str(f[-1]).startswith("upvar:") and f[-1] != "upvar:self" and len(f) == 1}
+            params = {a for a in sl.args if re.match(r"^u(32|64|size)$", b.local_ty(a) or "")}
+            writes = any((WRITE_WHOLE.search(x.name) or CREATE.search(x.name)) and x.args and c.dest and c.dest[0] in path_roots(b, x.args[0])[0] for x in b.calls)
+            reads = any(READ_WHOLE.search(x.name) for x in b.calls)
+            if writes and flds and not ups and not params:
+                counter.setdefault(c.name, set()).update(flds)
+            if reads and (ups or params) and not flds:
+                loaders.append((b, c, ups, params))
+    ctx.floor(rule, len(loaders), 1, "loaders of a generation-numbered state file")
+    for (b, c, ups, params) in loaders:
+        ctx.saw(b)
+        want = counter.get(c.name, set())
+        if not want:
+            ctx.bad(rule, [b.id, "no-saver"], "%s loads a generation-numbered file but no saver names its file through %s with a field" % (ctx._stable(b.id), c.name), c.loc())
+            continue
+        oks = [i for i in assigns_variant(b, "Ok", adt_pat=r"result::Result") if i in b.live_blocks()]
+        good = False
+        for fld in sorted(want):
+            for (i, j, st_) in field_writes(b, fld):
+                o = st_["r"]["o"][0] if st_["r"]["k"] == "Use" else None
+                l = op_local(o) if o else None
+                if l is None or i not in b.live_blocks():
+                    continue
+                sl = Slice(b, [l], transparent=True)
+                src_ups = {f[-1] for f in sl.fields if f and str(f[-1]).startswith("upvar:")}
+                if (src_ups & ups) or (sl.args & params):
+                    if all(b.dominates(i, k) for k in oks) and oks:
+                        good = True
+        ctx.check(good, rule, [b.id, "adopts-generation"], "the loaded generation becomes the manager's current generation",
+                  "%s reads the file of the generation it is given but does not store that generation in %s on every path to Ok: the next checkpoint "
+                  "of a restarted manager counts from its initial value again, lands on (or below) a file that exists, and the rotation deletes or overwrites "
+                  "the only valid checkpoint in place" % (ctx._stable(b.id), "/".join(sorted(want))), c.loc(), sample={"counter_fields": sorted(want)})
+
+
 def run(ctx, cfg=CFG):
+    r9_load_adopts_generation(ctx, cfg)
+    r8_sweep_after_success(ctx, cfg)
     r7_loaders_skip_temp(ctx, cfg)
     r6_delete_after_replace(ctx, cfg)
     published = r1_publish(ctx, cfg)
